@@ -188,7 +188,16 @@ class Type:
             elif self.is_tconst():
                 self._hash_val = hash(("TCONST", self.name, tuple(hash(arg) for arg in self.args)))
         return self._hash_val
-    
+
+    def __setstate__(self, state):
+        """Used by copy.deepcopy and pickle: the memoised hash is dropped. It
+        was computed by the process that pickled the object, and hashes of
+        strings differ between processes.
+
+        """
+        self.__dict__.update(state)
+        self.__dict__.pop('_hash_val', None)
+
     def __eq__(self, other):
         if other is None:
             return False
